@@ -125,6 +125,9 @@ func (u *Unit) execInstr(fr *Frame, st *State, in ssa.Instruction) {
 		v := u.get(fr, x.Val)
 		if p, ok := addr.(*PtrV); ok {
 			u.storePtr(fr, st, p, v, where)
+		} else if p := u.structRef(addr, x.Addr.Type()); p != nil {
+			// whole-struct store through a reference to a package struct (a spilled by-value parameter, *p = T{...})
+			u.storeHeap(fr, st, p, v, where)
 		} else {
 			u.note("store through %T in %s", addr, fr.key)
 		}
@@ -294,6 +297,23 @@ func (u *Unit) isSharedStruct(t types.Type) bool {
 	return true
 }
 
+// structRef: a reference (Scalar) to a package struct as a heap pointer to the whole object, or nil.
+func (u *Unit) structRef(v Val, pt types.Type) *PtrV {
+	s, ok := v.(*Scalar)
+	if !ok {
+		return nil
+	}
+	ptr, ok := pt.Underlying().(*types.Pointer)
+	if !ok {
+		return nil
+	}
+	elem := ptr.Elem()
+	if _, tr := u.eng.transparent(elem); !tr || !isNamed(elem) {
+		return nil
+	}
+	return &PtrV{Base: s.T, Root: structRootName(elem), Elem: elem, RTyp: elem}
+}
+
 func (u *Unit) execUnOp(fr *Frame, st *State, x *ssa.UnOp, where string) {
 	v := u.get(fr, x.X)
 	switch x.Op {
@@ -310,6 +330,10 @@ func (u *Unit) execUnOp(fr *Frame, st *State, x *ssa.UnOp, where string) {
 			}
 			fr.vals[x] = u.loadPtr(fr, st, p, where)
 		case *Scalar:
+			if q := u.structRef(p, x.X.Type()); q != nil {
+				fr.vals[x] = u.loadHeap(fr, st, q, where, true)
+				return
+			}
 			// pointer to a non-struct value we know nothing about
 			fr.vals[x] = u.freshVal(x.Type(), "deref", st.pc)
 		default:
